@@ -1365,8 +1365,9 @@ def run(out, ctx):
                 "non-trivial = valid index selecting >= 1 entry (indexing), n >= 2 (others), shapes differ (sweep)")
     out.extra["tolerances"] = {"gather / affine (exact copies, dyadic data)": 1e-12, "log_prob, KL (float64 Cholesky vs exact rational + mpmath)": 1e-8,
                                "rsample": 1e-9, "clamp (relative, per dtype)": DT_RTOL}
-    out.tested_not_proved = ["KL >= 0 / equality of the Cholesky form with the closed form for covariances WITHOUT a triangular factor of "
-                             "positive diagonal (proved for Cholesky-factored P, Q: c10_kl_nonnegative, c10_kl_closed_form_is_cholesky_form)", "log_prob / KL / + broadcasting against the batch (every broadcastable shape pair of rank <= 2, sizes <= 3, compared "
+    out.tested_not_proved = ["KL >= 0 for covariances that are only positive SEMI-definite / not symmetric (proved for ALL symmetric positive "
+                             "definite P, Q without factor hypotheses: c10_kl_nonnegative_pd, c10_kl_closed_form_is_cholesky_form_pd; "
+                             "KL = 0 ONLY IF the arguments coincide is not proved)", "log_prob / KL / + broadcasting against the batch (every broadcastable shape pair of rank <= 2, sizes <= 3, compared "
                              "element-wise with the exact density of the slices the proved index map selects)",
                              "sample moments converge (not tested: would be a flaky statistical check)",
                              "cache consistency of the real object along operation sequences (proved for the model: "
